@@ -11,8 +11,6 @@ def run(name, tier, seed):
     vlib.write_cfg(cfg, spec="Spec", constants={"NNames": 2, "NT": 1, "NParam": 2, "NValue": 1, "NDecl": 1, "NIdent": 1,
                                                 "MaxSteps": 5 if q else 7},
                    invariants=["Invariant"], properties=["OneFamilyMoves", "Monotone"])
-    with open(cfg, "a") as f:
-        f.write("CHECK_DEADLOCK FALSE\n")
     r = vlib.tlc("Ipr", cfg, workers=6, timeout=3000, heap="8g")
     deviations = []
     if r.violated:
